@@ -15,7 +15,7 @@ import time
 
 VERIF = os.path.dirname(os.path.dirname(os.path.abspath(__file__)))
 REPO = os.environ.get("ZV_REPO", "/repo")
-BUILD = os.path.join(VERIF, "build")
+BUILD = os.environ.get("ZV_BUILD", os.path.join(VERIF, "build"))
 VX = os.path.join(VERIF, "tools/vx/target/release/vx")
 TAG_RE = re.compile(r"/\*\[([A-Za-z0-9_.,\- ]+)\]\*/")
 TRUST_RE = re.compile(r"external_body|assume_specification|\baxiom\b|\bassume\s*\(|\badmit\s*\(")
